@@ -204,3 +204,709 @@ Proof.
   - destruct cs; [discriminate|]. destruct (tbody_rows _); cbn [bind]; try discriminate.
     intros H; injection H as <-; split; intros H1; discriminate H1.
 Qed.
+
+(* finish keeps "is a cell" (the fragment marker and the pseudo content go INTO the cell) and
+   never creates a header or a cell *)
+Lemma insert_child_cell : forall x nd b, is_cell (insert_child x nd b) = is_cell nd.
+Proof.
+  intros x [i s] b. unfold insert_child, is_cell.
+  destruct i; try reflexivity; try (destruct b; reflexivity).
+  - destruct r; reflexivity.
+  - destruct c; reflexivity.
+Qed.
+Lemma wrap_pseudo_cell : forall c nd, is_cell (wrap_pseudo c nd) = is_cell nd.
+Proof.
+  intros c nd. unfold wrap_pseudo.
+  destruct (cs_after c) as [a|]; [destruct (ws_val (c_content a))|];
+    (destruct (cs_before c) as [b|]; [destruct (ws_val (c_content b))|]);
+    rewrite ?insert_child_cell; reflexivity.
+Qed.
+Lemma insert_child_colspan : forall x n k s st b, exists k',
+  insert_child x (RN (ITableCell (RCell n k s)) st) b = RN (ITableCell (RCell n k' s)) st.
+Proof. intros. eexists. reflexivity. Qed.
+
+Section Blocks.
+  Variable sd : styledata.
+  Variable udc : bool.
+  Variable inl : list (text * text) -> res (list styledecl).
+  Notation process := (process sd udc inl).
+  Notation process_kids := (process_kids sd udc inl).
+
+  (* ---- 1. unfolding of `process` on an html element ---- *)
+  Theorem process_elem_unfold : forall name attrs kids p idx,
+    process (NElem true name attrs kids) p idx =
+    let me := mkanc name attrs idx :: p in
+    do inls <- (if udc then inl attrs else Ok []);
+    let computed := computed_style sd me inls in
+    if hidden_style computed then Ok None
+    else
+      do base <-
+         (if names [[105;109;103]] name then
+            match img_attrs attrs None None with
+            | (Some title, Some src) => Ok (Some (RN (IImg src title) computed))
+            | _ => Ok None
+            end
+          else if names [[98;114]] name then Ok (Some (RN IBreak computed))
+          else if names [[108;105;110;107]; [109;101;116;97]; [104;114]; [115;99;114;105;112;116];
+                         [115;116;121;108;101]; [104;101;97;100]] name then Ok None
+          else do cs <- process_kids kids me 1%Z; build_element name attrs computed cs);
+      Ok (finish computed true name attrs base).
+  Proof.
+    intros name attrs kids p idx. cbv zeta. rewrite process_eq, process_kids_eq. unfold pbody.
+    destruct (if udc then inl attrs else Ok []) as [inls| | |]; cbn [bind]; try reflexivity.
+    unfold hidden_style.
+    destruct (ws_val (c_display (cs_core (computed_style sd (mkanc name attrs idx :: p) inls))))
+      as [[|]|]; try reflexivity; cbn [negb];
+    (match goal with |- (do base <- ?e; _) = _ => destruct e as [[b|]| | |] end;
+     cbn [bind]; try reflexivity; unfold finish; cbn [andb];
+     destruct (fragment_of _ _ _); reflexivity).
+  Qed.
+
+  (* the elements that look at their children: given the inline declarations, a visible
+     computed style and the processed children *)
+  Theorem process_elem_children : forall name attrs kids p idx inls cs,
+    let me := mkanc name attrs idx :: p in
+    let computed := computed_style sd me inls in
+    (if udc then inl attrs else Ok []) = Ok inls ->
+    hidden_style computed = false ->
+    childless name = false ->
+    process_kids kids me 1%Z = Ok cs ->
+    process (NElem true name attrs kids) p idx =
+    (do base <- build_element name attrs computed cs; Ok (finish computed true name attrs base)).
+  Proof.
+    intros name attrs kids p idx inls cs me computed Hi Hh Hc Hk.
+    rewrite process_elem_unfold. cbv zeta. rewrite Hi. cbn [bind].
+    fold me. fold computed. rewrite Hh. unfold childless in Hc.
+    apply Bool.orb_false_iff in Hc. destruct Hc as (Hc & Hc3).
+    apply Bool.orb_false_iff in Hc. destruct Hc as (Hc1 & Hc2).
+    rewrite Hc1, Hc2, Hc3, Hk. reflexivity.
+  Qed.
+
+  (* hidden: nothing at all, whatever the name *)
+  Theorem process_elem_hidden : forall name attrs kids p idx inls,
+    (if udc then inl attrs else Ok []) = Ok inls ->
+    hidden_style (computed_style sd (mkanc name attrs idx :: p) inls) = true ->
+    process (NElem true name attrs kids) p idx = Ok None.
+  Proof.
+    intros name attrs kids p idx inls Hi Hh. rewrite process_elem_unfold. cbv zeta.
+    rewrite Hi. cbn [bind]. rewrite Hh. reflexivity.
+  Qed.
+
+  Lemma childless_cps : forall name s, cps name = s ->
+    childless name = (existsb (lN_eqb s) [[105;109;103]] || existsb (lN_eqb s) [[98;114]] ||
+                      existsb (lN_eqb s) [[108;105;110;107]; [109;101;116;97]; [104;114];
+                        [115;99;114;105;112;116]; [115;116;121;108;101]; [104;101;97;100]]).
+  Proof. intros name s <-. reflexivity. Qed.
+
+  Lemma header_not_childless : forall name n, heading_level name = Some n -> childless name = false.
+  Proof.
+    intros name n H. apply heading_level_range in H.
+    destruct H as [[_ H]|[[_ H]|[[_ H]|[[_ H]|[[_ H]|[_ H]]]]]];
+      rewrite (childless_cps _ _ H); reflexivity.
+  Qed.
+
+  (* ---- 2a. headers ---- *)
+  Section OneElement.
+    Variables (name : text) (attrs : list (text * text)) (kids : list node) (p : list anc) (idx : Z).
+    Variables (inls : list styledecl) (cs : list rnode).
+    Let me := mkanc name attrs idx :: p.
+    Let computed := computed_style sd me inls.
+    Hypothesis Hinl : (if udc then inl attrs else Ok []) = Ok inls.
+    Hypothesis Hvis : hidden_style computed = false.
+    Hypothesis Hkids : process_kids kids me 1%Z = Ok cs.
+
+    Theorem process_header : forall n, heading_level name = Some n ->
+      process (NElem true name attrs kids) p idx =
+      Ok (finish computed true name attrs (Some (RN (IHeader n cs) computed))).
+    Proof.
+      intros n H. unfold computed, me.
+      rewrite (process_elem_children name attrs kids p idx inls cs Hinl Hvis
+                 (header_not_childless _ _ H) Hkids).
+      rewrite (be_header _ _ _ _ _ H). reflexivity.
+    Qed.
+
+    Corollary process_header_plain : forall n, heading_level name = Some n ->
+      plain computed name attrs ->
+      process (NElem true name attrs kids) p idx = Ok (Some (RN (IHeader n cs) computed)).
+    Proof. intros n H Hp. rewrite (process_header n H), finish_plain by exact Hp. reflexivity. Qed.
+
+    (* the general form for the other names *)
+    Lemma process_by_name : forall s r,
+      cps name = s ->
+      (existsb (lN_eqb s) [[105;109;103]] || existsb (lN_eqb s) [[98;114]] ||
+       existsb (lN_eqb s) [[108;105;110;107]; [109;101;116;97]; [104;114];
+          [115;99;114;105;112;116]; [115;116;121;108;101]; [104;101;97;100]]) = false ->
+      build_element name attrs computed cs = Ok r ->
+      process (NElem true name attrs kids) p idx = Ok (finish computed true name attrs r).
+    Proof.
+      intros s r Hs Hc Hb. unfold computed, me.
+      rewrite (process_elem_children name attrs kids p idx inls cs Hinl Hvis); auto.
+      - fold me. fold computed. rewrite Hb. reflexivity.
+      - rewrite (childless_cps _ _ Hs). exact Hc.
+    Qed.
+
+    Definition noempty_opt (i : rinfo) : option rnode :=
+      match cs with [] => None | _ => Some (RN i computed) end.
+    Lemma noempty_ok : forall i, noempty cs i computed = Ok (noempty_opt i).
+    Proof. intros i. unfold noempty, noempty_opt. destruct cs; reflexivity. Qed.
+
+    (* ---- 2b. blockquote, ul, div, p: ALL processed children, nothing when there are none ---- *)
+    Theorem process_blockquote : cps name = Nm.blockquote ->
+      process (NElem true name attrs kids) p idx =
+      Ok (finish computed true name attrs (noempty_opt (IBlockQuote cs))).
+    Proof.
+      intros H. apply (process_by_name _ _ H); [reflexivity|].
+      rewrite (be_blockquote _ _ _ _ H). apply noempty_ok.
+    Qed.
+    Theorem process_ul : cps name = Nm.ul ->
+      process (NElem true name attrs kids) p idx =
+      Ok (finish computed true name attrs (noempty_opt (IUl cs))).
+    Proof.
+      intros H. apply (process_by_name _ _ H); [reflexivity|].
+      rewrite (be_ul _ _ _ _ H). apply noempty_ok.
+    Qed.
+    Theorem process_div : cps name = Nm.div ->
+      process (NElem true name attrs kids) p idx =
+      Ok (finish computed true name attrs (noempty_opt (IDiv cs))).
+    Proof.
+      intros H. apply (process_by_name _ _ H); [reflexivity|].
+      rewrite (be_div _ _ _ _ H). apply noempty_ok.
+    Qed.
+    Theorem process_p : cps name = Nm.p ->
+      process (NElem true name attrs kids) p idx =
+      Ok (finish computed true name attrs (noempty_opt (IBlock cs))).
+    Proof.
+      intros H. apply (process_by_name _ _ H); [reflexivity|].
+      rewrite (be_p _ _ _ _ H). apply noempty_ok.
+    Qed.
+
+    (* ---- 2c. ol, dl: only list items / dt, dd are kept, in order ---- *)
+    Theorem process_ol : cps name = Nm.ol ->
+      process (NElem true name attrs kids) p idx =
+      Ok (finish computed true name attrs
+            (noempty_opt (IOl (ol_start attrs) (filter_info is_li cs)))).
+    Proof.
+      intros H. apply (process_by_name _ _ H); [reflexivity|].
+      rewrite (be_ol _ _ _ _ H). apply noempty_ok.
+    Qed.
+    Theorem process_dl : cps name = Nm.dl ->
+      process (NElem true name attrs kids) p idx =
+      Ok (finish computed true name attrs (noempty_opt (IDl (filter_info is_dtdd cs)))).
+    Proof.
+      intros H. apply (process_by_name _ _ H); [reflexivity|].
+      rewrite (be_dl _ _ _ _ H). apply noempty_ok.
+    Qed.
+
+    (* ---- 2d. tr, td, th ---- *)
+    Theorem process_tr : cps name = Nm.tr ->
+      process (NElem true name attrs kids) p idx =
+      Ok (finish computed true name attrs
+            (Some (RN (ITableRow (RRow (cells_of cs) computed)) computed))).
+    Proof.
+      intros H. apply (process_by_name _ _ H); [reflexivity|]. apply (be_tr _ _ _ _ H).
+    Qed.
+    Theorem process_td : cps name = Nm.td \/ cps name = Nm.th ->
+      process (NElem true name attrs kids) p idx =
+      Ok (finish computed true name attrs
+            (Some (RN (ITableCell (RCell (td_colspan attrs) cs computed)) computed))).
+    Proof.
+      intros H. pose proof (be_td name attrs computed cs H) as Hb.
+      destruct H as [H|H]; apply (process_by_name _ _ H); try reflexivity; exact Hb.
+    Qed.
+  End OneElement.
+End Blocks.
+
+(* ---------------------------------------------------------------------- *)
+(* 3. indentation clause of C13 for ol / dl                                 *)
+(* ---------------------------------------------------------------------- *)
+Definition opt_list {A} (o : option A) : list A := match o with Some x => [x] | None => [] end.
+
+Lemma pk_insert : forall proc l1 x l2 i r,
+  is_elem x = false -> proc x (i + count_elems l1)%Z = Ok r ->
+  pk_of proc (l1 ++ x :: l2) i =
+  (do r1 <- pk_of proc l1 i; do r2 <- pk_of proc l2 (i + count_elems l1)%Z;
+   Ok (r1 ++ opt_list r ++ r2)).
+Proof.
+  intros proc l1 x l2 i r Hx Hr. rewrite pk_app.
+  destruct (pk_of proc l1 i) as [r1| | |]; cbn [bind]; try reflexivity.
+  cbn [pk_of]. rewrite Hr. cbn [bind].
+  change (match x with NElem _ _ _ _ => true | _ => false end) with (is_elem x). rewrite Hx.
+  destruct (pk_of proc l2 _) as [r2| | |]; cbn [bind]; try reflexivity.
+  destruct r; reflexivity.
+Qed.
+
+(* a non-element node: its processed result, never an element of the render tree other than text *)
+Definition nonelem_result (x : node) : option rnode :=
+  match x with NText t => Some (rn_new (IText t)) | _ => None end.
+
+Section Indent.
+  Variable sd : styledata.
+  Variable udc : bool.
+  Variable inl : list (text * text) -> res (list styledecl).
+  Notation process := (process sd udc inl).
+  Notation process_kids := (process_kids sd udc inl).
+
+  Lemma process_nonelem : forall x p i, is_elem x = false -> process x p i = Ok (nonelem_result x).
+  Proof. intros [h n a k|t| |] p i H; try discriminate H; reflexivity. Qed.
+
+  (* generic: if the element-specific constructor does not see the inserted result, `process`
+     does not see the inserted node *)
+  Lemma process_insert_gen : forall name attrs l1 x l2 p idx,
+    is_elem x = false ->
+    (forall c cs1 cs2,
+       process_kids (l1 ++ l2) (mkanc name attrs idx :: p) 1%Z = Ok (cs1 ++ cs2) ->
+       build_element name attrs c (cs1 ++ opt_list (nonelem_result x) ++ cs2) =
+       build_element name attrs c (cs1 ++ cs2)) ->
+    process (NElem true name attrs (l1 ++ x :: l2)) p idx =
+    process (NElem true name attrs (l1 ++ l2)) p idx.
+  Proof.
+    intros name attrs l1 x l2 p idx Hx Hb. rewrite !process_eq.
+    set (me := mkanc name attrs idx :: p) in *.
+    rewrite process_kids_eq in Hb.
+    rewrite (pk_insert _ l1 x l2 1%Z (nonelem_result x) Hx (process_nonelem x me _ Hx)).
+    rewrite pk_app in *.
+    destruct (pk_of _ l1 1%Z) as [cs1| | |]; cbn [bind] in *; [|reflexivity..].
+    destruct (pk_of _ l2 _) as [cs2| | |]; cbn [bind] in *; [|reflexivity..].
+    unfold pbody. destruct (if udc then inl attrs else Ok []) as [inls| | |]; cbn [bind]; [|reflexivity..].
+    cbn [negb]. rewrite (Hb _ cs1 cs2 eq_refl). reflexivity.
+  Qed.
+
+  Lemma filter_info_insert : forall f cs1 cs2 x,
+    f (rn_info x) = false ->
+    filter_info f (cs1 ++ x :: cs2) = filter_info f (cs1 ++ cs2).
+  Proof.
+    intros f cs1 cs2 x H. unfold filter_info. rewrite !filter_app. cbn [filter]. rewrite H.
+    reflexivity.
+  Qed.
+
+  (* SIDE CONDITION `<> Ok []`: the emptiness test of `ol` / `dl` (pending_noempty) is made on
+     ALL processed children, before the filter.  So "<ol></ol>" gives nothing while
+     "<ol> </ol>" gives an `IOl` without items (see ex_ol_empty_differs): the clause is
+     false without the condition that some child of the shorter list yields a node. *)
+  Theorem ol_insert_nonelem : forall name attrs l1 x l2 p idx,
+    cps name = Nm.ol -> is_elem x = false ->
+    process_kids (l1 ++ l2) (mkanc name attrs idx :: p) 1%Z <> Ok [] ->
+    process (NElem true name attrs (l1 ++ x :: l2)) p idx =
+    process (NElem true name attrs (l1 ++ l2)) p idx.
+  Proof.
+    intros name attrs l1 x l2 p idx Hn Hx Hne. apply process_insert_gen; [exact Hx|].
+    intros c cs1 cs2 Hk. rewrite !(be_ol _ _ _ _ Hn). unfold noempty.
+    destruct (cs1 ++ cs2) eqn:E; [congruence|].
+    destruct x as [h n a k|t| |]; try discriminate Hx; cbn [nonelem_result opt_list app];
+      rewrite ?E; try reflexivity.
+    rewrite (filter_info_insert is_li cs1 cs2 (rn_new (IText t)) eq_refl), E.
+    destruct cs1; cbn [app]; reflexivity.
+  Qed.
+
+  Theorem dl_insert_nonelem : forall name attrs l1 x l2 p idx,
+    cps name = Nm.dl -> is_elem x = false ->
+    process_kids (l1 ++ l2) (mkanc name attrs idx :: p) 1%Z <> Ok [] ->
+    process (NElem true name attrs (l1 ++ x :: l2)) p idx =
+    process (NElem true name attrs (l1 ++ l2)) p idx.
+  Proof.
+    intros name attrs l1 x l2 p idx Hn Hx Hne. apply process_insert_gen; [exact Hx|].
+    intros c cs1 cs2 Hk. rewrite !(be_dl _ _ _ _ Hn). unfold noempty.
+    destruct (cs1 ++ cs2) eqn:E; [congruence|].
+    destruct x as [h n a k|t| |]; try discriminate Hx; cbn [nonelem_result opt_list app];
+      rewrite ?E; try reflexivity.
+    rewrite (filter_info_insert is_dtdd cs1 cs2 (rn_new (IText t)) eq_refl), E.
+    destruct cs1; cbn [app]; reflexivity.
+  Qed.
+
+  (* comments, doctypes: no side condition, for every element name *)
+  Theorem any_insert_comment : forall name attrs l1 x l2 p idx,
+    x = NComment \/ x = NOther ->
+    process (NElem true name attrs (l1 ++ x :: l2)) p idx =
+    process (NElem true name attrs (l1 ++ l2)) p idx.
+  Proof.
+    intros name attrs l1 x l2 p idx Hx. apply process_insert_gen.
+    - destruct Hx as [-> | ->]; reflexivity.
+    - intros c cs1 cs2 _. destruct Hx as [-> | ->]; reflexivity.
+  Qed.
+
+  (* a sufficient, syntactic form of the side condition: some other child is a text node *)
+  Lemma pk_text_nonempty : forall kids p i t, In (NText t) kids -> process_kids kids p i <> Ok [].
+  Proof.
+    induction kids as [|k kids IH]; intros p i t Hin; [destruct Hin|destruct Hin as [->|Hin]].
+    - cbn [process_kids Dom.process bind].
+      destruct (process_kids kids p i) as [rs| | |]; cbn [bind]; discriminate.
+    - cbn [process_kids]. destruct (process k p i) as [r| | |]; cbn [bind]; try discriminate.
+      specialize (IH p (if match k with NElem _ _ _ _ => true | _ => false end then (i + 1)%Z else i) t Hin).
+      destruct (process_kids kids p _) as [rs| | |]; cbn [bind]; try discriminate.
+      destruct r; [discriminate|]. exact IH.
+  Qed.
+End Indent.
+
+(* ---------------------------------------------------------------------- *)
+(* 4. td_colspan                                                            *)
+(* ---------------------------------------------------------------------- *)
+(* value of one colspan attribute: parse::<usize>() (ASCII digits, optional '+', no spaces,
+   non-empty, fits usize) else 1; capped at 1000; "0" stays 0 (fixed up later in tbody) *)
+Definition colspan_val (v : text) : N :=
+  match parse_usize v with Some n => N.min n 1000 | None => 1 end.
+
+Lemma td_colspan_snoc : forall attrs kv,
+  td_colspan (attrs ++ [kv]) =
+  if attr_is (fst kv) s_colspan then colspan_val (snd kv) else td_colspan attrs.
+Proof. intros attrs kv. unfold td_colspan. rewrite fold_left_app. reflexivity. Qed.
+
+(* the LAST colspan attribute wins; absent = 1 *)
+Theorem td_colspan_spec : forall attrs,
+  td_colspan attrs =
+  match find (fun kv => attr_is (fst kv) s_colspan) (rev attrs) with
+  | Some kv => colspan_val (snd kv)
+  | None => 1
+  end.
+Proof.
+  induction attrs as [|kv attrs IH] using rev_ind; [reflexivity|].
+  rewrite td_colspan_snoc, rev_app_distr. cbn [rev app find].
+  destruct (attr_is (fst kv) s_colspan); [reflexivity|exact IH].
+Qed.
+
+Theorem td_colspan_bound : forall attrs, td_colspan attrs <= 1000.
+Proof.
+  intros attrs. rewrite td_colspan_spec. destruct (find _ _) as [kv|]; [|lia].
+  unfold colspan_val. destruct (parse_usize _); lia.
+Qed.
+Print Assumptions td_colspan_spec.
+
+(* ---------------------------------------------------------------------- *)
+(* 5. Examples                                                              *)
+(* ---------------------------------------------------------------------- *)
+Module DomBlocksExamples.
+Import PruneExamples.
+Import String Ascii.
+Local Open Scope string_scope.
+
+Definition sd0 := styledata0.
+Definition proc (n : node) := process sd0 true inline_styles n [] 1%Z.
+Definition st0 (name : string) attrs :=
+  computed_style sd0 [mkanc (t name) (List.map (fun kv => (t (fst kv), t (snd kv))) attrs) 1%Z] [].
+Definition txn (s : string) : rnode := rn_new (IText (t s)).
+
+(* colspan values *)
+Example ex_colspan :
+  List.map (fun v => td_colspan [(t "colspan", t v)]) ["3"; "+3"; "0"; ""; "abc"; " 2"; "2 "; "-1"; "2000"; "1.5"]
+  = [3; 3; 0; 1; 1; 1; 1; 1; 1000; 1]
+  /\ td_colspan [] = 1
+  /\ td_colspan [(t "colspan", t "2"); (t "x", t "y"); (t "colspan", t "5")] = 5
+  /\ td_colspan [(t "colspan", t "2"); (t "colspan", t "zz")] = 1.
+Proof. vm_compute. repeat split. Qed.
+
+(* all six headers, h7 is not one *)
+Example ex_headers :
+  List.map (fun nm => match proc (el nm [] [tx "x"]) with
+                      | Ok (Some (RN (IHeader n [c]) _)) => Some n | _ => None end)
+           ["h1"; "h2"; "h3"; "h4"; "h5"; "h6"; "h7"; "h0"; "h"; "h11"]
+  = [Some 1; Some 2; Some 3; Some 4; Some 5; Some 6; None; None; None; None].
+Proof. vm_compute. reflexivity. Qed.
+
+Example ex_header_thm :
+  proc (el "h6" [] [tx "x"]) = Ok (Some (RN (IHeader 6 [txn "x"]) (st0 "h6" []))).
+Proof.
+  unfold proc, el. eapply process_header_plain with (inls := []); try (vm_compute; reflexivity).
+  vm_compute. auto.
+Qed.
+
+(* ul does NOT filter (its text child stays); ol and dl do *)
+Example ex_ul_no_filter :
+  proc (el "ul" [] [tx " "; el "li" [] [tx "a"]; tx "b"]) =
+  Ok (Some (RN (IUl [txn " "; RN (IListItem [txn "a"]) (st0 "li" []); txn "b"]) (st0 "ul" []))).
+Proof. vm_compute. reflexivity. Qed.
+Example ex_ol_filter :
+  proc (el "ol" [("start", "4")] [tx " "; el "li" [] [tx "a"]; tx "b"; el "p" [] [tx "q"]]) =
+  Ok (Some (RN (IOl 4 [RN (IListItem [txn "a"]) (st0 "li" [])]) (st0 "ol" [("start", "4")]))).
+Proof. vm_compute. reflexivity. Qed.
+Example ex_ol_start :
+  List.map (fun v => ol_start [(t "start", t v)]) ["4"; "-2"; "+7"; "x"; ""; "3 "] =
+  [4; -2; 7; 1; 1; 1]%Z /\ ol_start [] = 1%Z
+  /\ ol_start [(t "start", t "x"); (t "start", t "9")] = 1%Z.   (* FIRST start attribute *)
+Proof. vm_compute. repeat split. Qed.
+Example ex_dl_filter :
+  proc (el "dl" [] [tx " "; el "dt" [] [tx "a"]; el "li" [] []; el "dd" [] [tx "b"]]) =
+  Ok (Some (RN (IDl [RN (IDt [txn "a"]) (st0 "dt" []); RN (IDd [txn "b"]) (st0 "dd" [])])
+               (st0 "dl" []))).
+Proof. vm_compute. reflexivity. Qed.
+
+(* the indentation theorem on a concrete <ol> ... *)
+Example ex_ol_insert :
+  proc (el "ol" [] ([el "li" [] [tx "a"]] ++ tx "  " :: [el "li" [] [tx "b"]])) =
+  proc (el "ol" [] ([el "li" [] [tx "a"]] ++ [el "li" [] [tx "b"]])).
+Proof.
+  unfold proc, el. apply ol_insert_nonelem; try reflexivity. vm_compute. discriminate.
+Qed.
+(* ... and the necessity of its side condition: <ol></ol> is nothing, <ol> </ol> is a list
+   without items (the emptiness test comes before the filter) *)
+Example ex_ol_empty_differs :
+  proc (el "ol" [] []) = Ok None /\
+  proc (el "ol" [] [tx " "]) = Ok (Some (RN (IOl 1 []) (st0 "ol" []))) /\
+  proc (el "dl" [] []) = Ok None /\
+  proc (el "dl" [] [tx " "]) = Ok (Some (RN (IDl []) (st0 "dl" []))).
+Proof. vm_compute. repeat split. Qed.
+
+(* blockquote / div / p: nothing without children *)
+Example ex_noempty :
+  List.map (fun nm => proc (el nm [] [])) ["blockquote"; "ul"; "div"; "p"] =
+  [Ok None; Ok None; Ok None; Ok None] /\
+  proc (el "blockquote" [] [tx "q"]) = Ok (Some (RN (IBlockQuote [txn "q"]) (st0 "blockquote" []))).
+Proof. vm_compute. repeat split. Qed.
+
+(* tr: a td without children still gives a cell; text and comments between cells are dropped;
+   a hidden cell gives none *)
+Example ex_tr :
+  proc (el "tr" [] [tx " "; el "td" [] []; NComment; el "th" [("colspan", "2")] [tx "x"];
+                    el "td" hide [tx "h"]; el "p" [] [tx "lost"]]) =
+  Ok (Some (RN (ITableRow (RRow [RCell 1 [] (st0 "td" []);
+                                 RCell 2 [txn "x"]
+                                   (computed_style sd0 [mkanc (t "th") [(t "colspan", t "2")] 2%Z;
+                                                        mkanc (t "tr") [] 1%Z] [])]
+                                (st0 "tr" []))) (st0 "tr" []))).
+Proof. vm_compute. reflexivity. Qed.
+End DomBlocksExamples.
+
+(* ---------------------------------------------------------------------- *)
+(* 6. the cells of a row = the visible td / th children                      *)
+(* ---------------------------------------------------------------------- *)
+Definition is_tdth (k : node) : bool :=
+  match k with NElem true nm _ _ => names [[116;104]; [116;100]] nm | _ => false end.
+
+Lemma finish_cell : forall c h name attrs base nd,
+  finish c h name attrs base = Some nd ->
+  is_cell nd = match base with Some b => is_cell b | None => false end.
+Proof.
+  intros c h name attrs base nd. unfold finish.
+  destruct base as [b|]; destruct (fragment_of _ _ _); intros H; try discriminate H; injection H as <-;
+    rewrite ?insert_child_cell, ?wrap_pseudo_cell; reflexivity.
+Qed.
+
+(* finish keeps the colspan of a cell *)
+Lemma wrap_pseudo_colspan : forall c n k s st, exists k',
+  wrap_pseudo c (RN (ITableCell (RCell n k s)) st) = RN (ITableCell (RCell n k' s)) st.
+Proof.
+  intros c n k s st. unfold wrap_pseudo.
+  destruct (cs_before c) as [b|]; [destruct (ws_val (c_content b))|];
+    (destruct (cs_after c) as [a|]; [destruct (ws_val (c_content a))|]);
+    cbn [insert_child]; eexists; reflexivity.
+Qed.
+Lemma finish_colspan : forall c h name attrs n k s st, exists k',
+  finish c h name attrs (Some (RN (ITableCell (RCell n k s)) st)) =
+  Some (RN (ITableCell (RCell n k' s)) st).
+Proof.
+  intros c h name attrs n k s st. unfold finish.
+  destruct (wrap_pseudo_colspan c n k s st) as (k' & ->).
+  destruct (fragment_of _ _ _); cbn [insert_child]; eexists; reflexivity.
+Qed.
+
+Lemma lN_eqb_true : forall a b, lN_eqb a b = true -> a = b.
+Proof.
+  induction a as [|x a IH]; intros [|y b] H; cbn [lN_eqb] in H; try discriminate; [reflexivity|].
+  apply Bool.andb_true_iff in H. destruct H as (H1 & H2). apply N.eqb_eq in H1.
+  rewrite (IH _ H2), H1. reflexivity.
+Qed.
+Lemma tdth_cps : forall name, names [[116;104]; [116;100]] name = true ->
+  cps name = Nm.td \/ cps name = Nm.th.
+Proof.
+  intros name H. rewrite names_cps in H. cbn [existsb] in H.
+  apply Bool.orb_true_iff in H. destruct H as [H|H]; [right; exact (lN_eqb_true _ _ H)|].
+  apply Bool.orb_true_iff in H. destruct H as [H|H]; [left; exact (lN_eqb_true _ _ H)|discriminate].
+Qed.
+
+Section RowCells.
+  Variable sd : styledata.
+  Variable udc : bool.
+  Variable inl : list (text * text) -> res (list styledecl).
+  Notation process := (process sd udc inl).
+  Notation process_kids := (process_kids sd udc inl).
+
+  (* a cell comes only from an html td / th element *)
+  Theorem cell_only_from_tdth : forall k p i nd,
+    process k p i = Ok (Some nd) -> is_cell nd = true -> is_tdth k = true.
+  Proof.
+    intros [h name attrs kids|t| |] p i nd H Hc; try discriminate H.
+    2:{ injection H as <-. discriminate Hc. }
+    destruct h.
+    - rewrite process_elem_unfold in H. cbv zeta in H.
+      destruct (if udc then inl attrs else Ok []) as [inls| | |]; cbn [bind] in H; try discriminate H.
+      destruct (hidden_style _); [discriminate H|].
+      match type of H with (do base <- ?e; _) = _ => destruct e as [base| | |] eqn:E end;
+        cbn [bind] in H; try discriminate H.
+      injection H as H. rewrite (finish_cell _ _ _ _ _ _ H) in Hc.
+      destruct base as [b|]; [|discriminate Hc]. cbn [is_tdth].
+      destruct (names [[105;109;103]] name).
+      { destruct (img_attrs attrs None None) as [[ti|] [sr|]]; try discriminate E.
+        injection E as <-. discriminate Hc. }
+      destruct (names [[98;114]] name). { injection E as <-. discriminate Hc. }
+      destruct (names _ name) in E; [discriminate E|].
+      destruct (process_kids _ _ _) as [cs| | |]; cbn [bind] in E; try discriminate E.
+      apply be_inv in E. destruct E as (_ & E). exact (E Hc).
+    - exfalso. rewrite process_eq in H. unfold pbody in H.
+      destruct (if udc then inl attrs else Ok []) as [inls| | |]; cbn [bind] in H; try discriminate H.
+      cbn [negb andb] in H.
+      match type of H with
+        match ?d with _ => _ end = _ => destruct d as [[|]|]; try discriminate H
+      end;
+      (destruct (pk_of _ kids 1%Z) as [[|c0 cs]| | |]; cbn [bind] in H; try discriminate H;
+       destruct (fragment_of _ _ _); try discriminate H; injection H as <-;
+       rewrite ?insert_child_cell, ?wrap_pseudo_cell in Hc; discriminate Hc).
+  Qed.
+
+  (* a td / th that yields anything yields a cell with colspan td_colspan attrs: also when
+     it has no children *)
+  Theorem tdth_gives_cell : forall name attrs kids p i nd,
+    names [[116;104]; [116;100]] name = true ->
+    process (NElem true name attrs kids) p i = Ok (Some nd) ->
+    exists k s, rn_info nd = ITableCell (RCell (td_colspan attrs) k s).
+  Proof.
+    intros name attrs kids p i nd Hn H. apply tdth_cps in Hn.
+    rewrite process_elem_unfold in H. cbv zeta in H.
+    destruct (if udc then inl attrs else Ok []) as [inls| | |]; cbn [bind] in H; try discriminate H.
+    destruct (hidden_style _); [discriminate H|].
+    assert (Hc : childless name = false)
+      by (destruct Hn as [Hn|Hn]; rewrite (childless_cps _ _ Hn); reflexivity).
+    unfold childless in Hc.
+    apply Bool.orb_false_iff in Hc. destruct Hc as (Hc & Hc3).
+    apply Bool.orb_false_iff in Hc. destruct Hc as (Hc1 & Hc2).
+    rewrite Hc1, Hc2, Hc3 in H.
+    destruct (process_kids _ _ _) as [cs| | |]; cbn [bind] in H; try discriminate H.
+    rewrite (be_td _ _ _ _ Hn) in H. cbn [bind] in H. injection H as H.
+    destruct (finish_colspan (computed_style sd (mkanc name attrs i :: p) inls) true name attrs
+                (td_colspan attrs) cs (computed_style sd (mkanc name attrs i :: p) inls)
+                (computed_style sd (mkanc name attrs i :: p) inls)) as (k' & Hf).
+    rewrite Hf in H. injection H as <-. cbn [rn_info]. eexists. eexists. reflexivity.
+  Qed.
+
+  (* the children that give a cell *)
+  Definition cell_kid (me : list anc) (k : node) (i : Z) : bool :=
+    is_tdth k && match process k me i with Ok None => false | _ => true end.
+  Fixpoint count_cells (me : list anc) (kids : list node) (i : Z) : nat :=
+    match kids with
+    | [] => O
+    | k :: kids' => ((if cell_kid me k i then 1 else 0) +
+                     count_cells me kids' (if is_elem k then (i + 1)%Z else i))%nat
+    end.
+
+  Theorem row_cell_count : forall kids me i cs,
+    process_kids kids me i = Ok cs ->
+    length (cells_of cs) = count_cells me kids i.
+  Proof.
+    induction kids as [|k kids IH]; intros me i cs H.
+    - injection H as <-. reflexivity.
+    - cbn [process_kids] in H. cbn [count_cells]. unfold cell_kid.
+      change (match k with NElem _ _ _ _ => true | _ => false end) with (is_elem k) in H.
+      destruct (process k me i) as [r| | |] eqn:Ek; cbn [bind] in H; try discriminate H.
+      destruct (process_kids kids me _) as [rs| | |] eqn:Er; cbn [bind] in H; try discriminate H.
+      injection H as <-. specialize (IH _ _ _ Er). rewrite <- IH.
+      destruct r as [nd|].
+      + unfold cells_of. cbn [flat_map]. rewrite app_length. f_equal.
+        destruct (is_tdth k) eqn:Et; cbn [andb].
+        * destruct k as [[|] name attrs kk|t| |]; try discriminate Et.
+          destruct (tdth_gives_cell _ _ _ _ _ _ Et Ek) as (k' & s & ->). reflexivity.
+        * destruct (rn_info nd) eqn:Ei; try reflexivity.
+          assert (Hc : is_cell nd = true) by (unfold is_cell; rewrite Ei; reflexivity).
+          rewrite (cell_only_from_tdth _ _ _ _ Ek Hc) in Et. discriminate Et.
+      + rewrite Bool.andb_false_r. reflexivity.
+  Qed.
+End RowCells.
+Print Assumptions row_cell_count.
+
+Module DomBlocksExamples2.
+Import PruneExamples DomBlocksExamples.
+Import String Ascii.
+Local Open Scope string_scope.
+(* 4 element children (two visible cells, one hidden cell, one p), text and comment: 2 cells *)
+Example ex_row_count :
+  let kids := [tx " "; el "td" [] []; NComment; el "th" [("colspan", "2")] [tx "x"];
+               el "td" hide [tx "h"]; el "p" [] [tx "lost"]] in
+  count_cells sd0 true inline_styles [mkanc (t "tr") [] 1%Z] kids 1%Z = 2%nat /\
+  exists cs, process_kids sd0 true inline_styles kids [mkanc (t "tr") [] 1%Z] 1%Z = Ok cs /\
+             List.length (cells_of cs) = 2%nat.
+Proof. split; [vm_compute; reflexivity|]. eexists. split; vm_compute; reflexivity. Qed.
+End DomBlocksExamples2.
+
+Print Assumptions process_elem_unfold.
+Print Assumptions process_header_plain.
+Print Assumptions be_inv.
+Print Assumptions heading_level_range.
+Print Assumptions process_blockquote.
+Print Assumptions process_ul.
+Print Assumptions process_div.
+Print Assumptions process_p.
+Print Assumptions process_ol.
+Print Assumptions process_dl.
+Print Assumptions process_tr.
+Print Assumptions process_td.
+Print Assumptions ol_insert_nonelem.
+Print Assumptions dl_insert_nonelem.
+Print Assumptions any_insert_comment.
+Print Assumptions cell_only_from_tdth.
+Print Assumptions tdth_gives_cell.
+Print Assumptions DomBlocksExamples.ex_ol_empty_differs.
+
+(* ---------------------------------------------------------------------- *)
+(* 7. text / comment nodes directly inside tr and table are not content       *)
+(*    (no side condition; thead / tbody have the same emptiness-before-filter *)
+(*    behaviour as ol: "<tbody> </tbody>" is an empty body, "<tbody></tbody>" *)
+(*    is nothing - not proved here)                                           *)
+(* ---------------------------------------------------------------------- *)
+Section IndentTable.
+  Variable sd : styledata.
+  Variable udc : bool.
+  Variable inl : list (text * text) -> res (list styledecl).
+  Notation process := (process sd udc inl).
+
+  Lemma flat_map_insert_nonelem : forall {B} (f : rnode -> list B) cs1 cs2 x,
+    is_elem x = false -> (forall t, f (rn_new (IText t)) = []) ->
+    flat_map f (cs1 ++ opt_list (nonelem_result x) ++ cs2) = flat_map f (cs1 ++ cs2).
+  Proof.
+    intros B f cs1 cs2 x Hx Hf. rewrite !flat_map_app. f_equal.
+    destruct x as [h n a k|t| |]; try discriminate Hx; cbn [nonelem_result opt_list flat_map app];
+      rewrite ?Hf; reflexivity.
+  Qed.
+
+  Theorem tr_insert_nonelem : forall name attrs l1 x l2 p idx,
+    cps name = Nm.tr -> is_elem x = false ->
+    process (NElem true name attrs (l1 ++ x :: l2)) p idx =
+    process (NElem true name attrs (l1 ++ l2)) p idx.
+  Proof.
+    intros name attrs l1 x l2 p idx Hn Hx. apply process_insert_gen; [exact Hx|].
+    intros c cs1 cs2 _. rewrite !(be_tr _ _ _ _ Hn). unfold cells_of.
+    rewrite (flat_map_insert_nonelem _ cs1 cs2 x Hx); reflexivity.
+  Qed.
+
+  Lemma be_table : forall name attrs c cs, cps name = Nm.table ->
+    build_element name attrs c cs =
+    let rows := flat_map (fun n => match rn_info n with ITableBody b => b | _ => [] end) cs in
+    match rows with
+    | [] => Ok None
+    | _ => do t <- render_table_new rows; Ok (Some (RN t c))
+    end.
+  Proof. intros name attrs c cs H. unfold build_element; rewrite ?heading_level_spec, ?names_cps, H; reflexivity. Qed.
+
+  Theorem table_insert_nonelem : forall name attrs l1 x l2 p idx,
+    cps name = Nm.table -> is_elem x = false ->
+    process (NElem true name attrs (l1 ++ x :: l2)) p idx =
+    process (NElem true name attrs (l1 ++ l2)) p idx.
+  Proof.
+    intros name attrs l1 x l2 p idx Hn Hx. apply process_insert_gen; [exact Hx|].
+    intros c cs1 cs2 _. rewrite !(be_table _ _ _ _ Hn). cbv zeta.
+    rewrite (flat_map_insert_nonelem _ cs1 cs2 x Hx); reflexivity.
+  Qed.
+End IndentTable.
+Print Assumptions tr_insert_nonelem.
+Print Assumptions table_insert_nonelem.
+
+Module DomBlocksExamples3.
+Import PruneExamples DomBlocksExamples.
+Import String Ascii.
+Local Open Scope string_scope.
+Example ex_tr_insert :
+  proc (el "tr" [] ([el "td" [] [tx "a"]] ++ tx "
+   " :: [el "td" [] [tx "b"]])) =
+  proc (el "tr" [] ([el "td" [] [tx "a"]] ++ [el "td" [] [tx "b"]])).
+Proof. unfold proc, el. apply tr_insert_nonelem; reflexivity. Qed.
+(* thead / tbody: same emptiness-before-filter behaviour as ol *)
+Example ex_tbody_empty_differs :
+  proc (el "tbody" [] []) = Ok None /\
+  proc (el "tbody" [] [tx " "]) = Ok (Some (RN (ITableBody []) (st0 "tbody" []))).
+Proof. vm_compute. split; reflexivity. Qed.
+End DomBlocksExamples3.
